@@ -487,6 +487,18 @@ static void sc_hostport_forms_prep(void) {
     fd_op('c', NULL, 0);
 }
 
+/* ERROR-level log records on one connection; the messages list grows at the 9th record (and the 17th): three lengths, so that in one of them the
+   record that makes the list grow is the LAST error of the connection (the one htp_connp_get_last_error() returns at the end):
+   a request whose chunk length is invalid puts the stream into error, further data calls on the failed stream log one ERROR each */
+static void sc_log_errors_n(int more) {
+    fd_sc_reset(); fd_sc.log_level = HTP_LOG_ERROR; fd_sc.chunk = 400;
+    Q("POST /l HTTP/1.1\r\nHost: a\r\nTransfer-Encoding: chunked\r\n\r\nZZZ\r\n");
+    for (int i = 0; i < more; i++) Q("more");
+}
+static void sc_log_errors_a_prep(void) { sc_log_errors_n(6); }
+static void sc_log_errors_b_prep(void) { sc_log_errors_n(7); }
+static void sc_log_errors_c_prep(void) { sc_log_errors_n(8); }
+
 /* ---- hybrid API */
 #define H(x) do { htp_status_t _r = (x); fd_note(_r == HTP_OK ? "k" : (_r == HTP_ERROR ? "e" : "o")); } while (0)
 /* a hybrid-API user stops working on a transaction at the first HTP_ERROR */
@@ -668,6 +680,9 @@ static fd_scenario_t fd_scenarios[] = {
     { "hooks_runtime", sc_hooks_runtime_prep, fd_run_script },
     { "connect", sc_connect_prep, fd_run_script },
     { "hostport_forms", sc_hostport_forms_prep, fd_run_script },
+    { "log_errors_a", sc_log_errors_a_prep, fd_run_script },
+    { "log_errors_b", sc_log_errors_b_prep, fd_run_script },
+    { "log_errors_c", sc_log_errors_c_prep, fd_run_script },
     { "hybrid", fd_sc_reset, sc_hybrid_run },
     { "containers", sc_none, sc_containers_run },
     { NULL, NULL, NULL }
